@@ -108,6 +108,20 @@ pub fn module_error_str(e: &ModuleError) -> String {
   )
 }
 
+pub fn error_kind_id(e: &ModuleError) -> u64 {
+  match e.as_kind() {
+    ModuleErrorKind::Load { .. } => 0,
+    ModuleErrorKind::Missing { .. } => 1,
+    ModuleErrorKind::MissingDynamic { .. } => 2,
+    ModuleErrorKind::Parse { .. } => 3,
+    ModuleErrorKind::WasmParse { .. } => 4,
+    ModuleErrorKind::UnsupportedMediaType { .. } => 5,
+    ModuleErrorKind::InvalidTypeAssertion { .. } => 6,
+    ModuleErrorKind::UnsupportedImportAttributeType { .. } => 7,
+    ModuleErrorKind::UnsupportedModuleTypeForSourcePhaseImport { .. } => 8,
+  }
+}
+
 pub fn resolution_error_str(e: &ResolutionError) -> String {
   format!("{}|{}", range_str(e.range()), e.to_string_with_range())
 }
@@ -231,6 +245,7 @@ pub fn abs_deps(deps: &IndexMap<String, Dependency>, it: &mut Intern) -> Sx {
           abs_res(&d.maybe_code, it),
           abs_res(&d.maybe_type, it),
           Sx::b(d.is_dynamic),
+          Sx::b(d.maybe_deno_types_specifier.is_some()),
         ])
       })
       .collect(),
@@ -264,6 +279,10 @@ pub fn abs_module(m: &Module, it: &mut Intern) -> Sx {
     abs_deps(m.dependencies(), it),
     td,
     fc,
+    Sx::b(match m {
+      Module::Wasm(w) => !w.source_dts.is_empty(),
+      _ => false,
+    }),
   ])
 }
 
@@ -316,7 +335,24 @@ pub fn abs_graph(g: &ModuleGraph, it: &mut Intern) -> Sx {
       })
       .collect(),
   );
-  Sx::L(vec![Sx::A(kind_id(g.graph_kind())), roots, Sx::L(slots), reds, imps, schemes])
+  let errkinds = Sx::L(
+    g.module_errors()
+      .map(|e| {
+        let id = it.misc(&module_error_str(e));
+        Sx::atoms([id, error_kind_id(e)])
+      })
+      .collect(),
+  );
+  Sx::L(vec![
+    Sx::A(kind_id(g.graph_kind())),
+    roots,
+    Sx::L(slots),
+    reds,
+    imps,
+    schemes,
+    Sx::b(g.has_node_specifier),
+    errkinds,
+  ])
 }
 
 /// A graph error of a walk in the model's `gerr` vocabulary.
